@@ -1469,18 +1469,32 @@ class FileStorage(
 
     def record_iternext(self, next=None):
         index = self._index
+
+        def following(oid):
+            # The next oid in the index that has a current record.  An
+            # object whose creation was undone stays in the index, but
+            # there is no record to report for it.
+            while oid is not None:
+                oid_as_long, = unpack(">Q", oid)
+                try:
+                    oid = index.minKey(pack(">Q", oid_as_long + 1))
+                except ValueError:  # "empty tree" error
+                    return None
+                with self._files.get() as _file:
+                    h = self._read_data_header(index[oid], oid, _file)
+                if h.plen or h.back:
+                    return oid
+
         oid = index.minKey(next)
-
-        oid_as_long, = unpack(">Q", oid)
-        next_oid = pack(">Q", oid_as_long + 1)
         try:
-            next_oid = index.minKey(next_oid)
-        except ValueError:  # "empty tree" error
-            next_oid = None
+            data, tid = load_current(self, oid)
+        except POSKeyError:
+            oid = following(oid)
+            if oid is None:
+                raise ValueError('no current record')  # as for no records
+            data, tid = load_current(self, oid)
 
-        data, tid = load_current(self, oid)
-
-        return oid, tid, data, next_oid
+        return oid, tid, data, following(oid)
 
     ######################################################################
     # The following 2 methods are for testing a ZEO extension mechanism
